@@ -88,14 +88,10 @@ theorem cdsFlags_spec (c : CDS) (h : WFCDS c)
     unfold okFirstCodon at h1
     rw [hcl, hT] at h1
     simp only at h1
-    have hsi : hasStartCodonIn c (table : Int) = .ok (some (decide (cod ∈ starts))) := by
+    have hsi : hasStartCodonIn c (table : Int) = .ok (decide (cod ∈ starts)) := by
       cases hx : hasStartCodonIn c (table : Int) with
-      | error e => rw [hx] at h1; simp [obsOpt] at h1
-      | ok o =>
-        rw [hx] at h1
-        cases o with
-        | none => simp [obsOpt] at h1
-        | some b => simp only [ans_ok, obsOpt, beq_iff_eq, Option.some.injEq] at h1; rw [h1]
+      | error e => rw [hx] at h1; simp at h1
+      | ok b => rw [hx] at h1; simp only [ans_ok, beq_iff_eq, Option.some.injEq] at h1; rw [h1]
     -- last codon
     obtain ⟨last, hlast⟩ : ∃ last, (cod :: cods).getLast? = some last :=
       ⟨(cod :: cods).getLast (by simp), List.getLast?_eq_some_getLast (by simp)⟩
